@@ -102,18 +102,96 @@ def oracle(scn, res):
     return out
 
 
+# ---------------------------------------------------------------------------
+# an environment player the scheduler cannot provide: a writer that keeps the database's write lock for a while
+# (a gate inside an IMMEDIATE transaction would only manufacture such waits, so none is placed there).  Commands that
+# start meanwhile have to wait, not fail.  Hold times are enumerated, not sampled: they are the scenario's parameter.
+
+HOLD_S = {"quick": [0.2, 8.0], "thorough": [0.2, 3.0, 8.0, 20.0]}
+WAITERS = [["redo-targets"], ["redo-sources"], ["redo-ood"], ["redo-ifchange", "y"]]
+
+
+def long_writer(tier):
+    import sqlite3
+    import subprocess
+    import threading
+    import time
+    from .. import common
+    from ..e1 import Project
+    bindir = common.build_subject()
+    w = SC.W()["two"]
+    results = []
+
+    def one(hold):
+        root = common.scratch_root() / ("lw%d_%d" % (int(hold * 10), time.monotonic_ns()))
+        root.mkdir(parents=True)
+        proj = Project(w, bindir, root)
+        obs = proj.op(["ifchange", ["x"]])
+        if obs["rc"] != 0:
+            results.append((hold, [({"kind": "spurious-failure", "scenario": "long-writer", "cmd": "redo-ifchange", "rc": obs["rc"],
+                                     "msg": "setup"}, {"stderr": obs["err"][-500:]})]))
+            return
+        con = sqlite3.connect(str(proj.p / ".redo" / "db.sqlite3"), isolation_level=None, timeout=60)
+        con.execute("BEGIN IMMEDIATE")
+        procs = [(argv, subprocess.Popen(argv, cwd=str(proj.p), env=proj.env, stdin=subprocess.DEVNULL, stdout=subprocess.PIPE,
+                                         stderr=subprocess.PIPE, start_new_session=True)) for argv in WAITERS]
+        time.sleep(hold)
+        con.execute("COMMIT")
+        con.close()
+        bad = []
+        for argv, p_ in procs:
+            try:
+                out, err = p_.communicate(timeout=90)
+            except subprocess.TimeoutExpired:
+                p_.kill()
+                out, err = p_.communicate()
+                bad.append(({"kind": "hang-after-writer-finished", "scenario": "long-writer", "cmd": argv[0], "hold_s": hold}, {}))
+                continue
+            err = err.decode("utf-8", "replace")
+            m = BAD.search(err)
+            if p_.returncode != 0 or m:
+                bad.append(({"kind": "spurious-failure", "scenario": "long-writer", "cmd": argv[0], "rc": p_.returncode,
+                             "msg": (m.group(0).lower() if m else ""), "hold_s": hold}, {"stderr": err[-600:]}))
+        results.append((hold, bad))
+    ths = [threading.Thread(target=one, args=(h,)) for h in HOLD_S[tier]]
+    for t in ths:
+        t.start()
+    for t in ths:
+        t.join()
+    return sorted(results)
+
+
 def main(tier):
-    return e2prop.run_property(
+    from .. import common
+    lw = long_writer(tier)
+    v = common.Verdict(PID)
+    for hold, bad in lw:
+        for sig, detail in bad:
+            v.report(sig, {"engine": "env-player", "scenario": "long-writer", "hold_s": hold, "waiters": WAITERS, "detail": detail})
+    rc0 = v.finish()
+    rc1 = e2prop.run_property(
         PID, tier, scenarios(tier), oracle,
+        extra={"long_writer": {"hold_seconds": [h for h, _ in lw], "waiting_commands": WAITERS,
+                               "violations": sum(len(b) for _, b in lw)}},
         rule="2-3 top-level commands (redo-ifchange / redo / redo-ood / redo-targets / redo-sources) started together on a "
              "project without .redo, and on an existing database; every schedule with <= b deviations (quick 1, thorough 2-3) "
              "at the gates: first-run creation stages (exists-check / unlink / connect / create), every transaction begin, "
              "run-id allocation, locks, event loop, scripts. Oracle: every command exits 0 with no SQLite/busy/lock message, "
              "integrity_check ok, every Files row and Deps edge each command must write is present, contents correct, run ids unique",
-        assumptions=["gates are not placed inside IMMEDIATE transactions (mutually excluded by SQLite)", "<= 3 commands", "all scripts succeed"],
+        assumptions=["gates are not placed inside IMMEDIATE transactions (mutually excluded by SQLite)", "<= 3 commands", "all scripts succeed",
+                     "long-writer: an external connection holds the write lock for each listed number of seconds (all well below "
+                     "redo's 60 s busy timeout) while redo-targets / redo-sources / redo-ood / redo-ifchange start: all must succeed"],
         budget_s=600 if tier == "quick" else 3000)
+    return 1 if (rc0 or rc1) else 0
 
 
 def replay(path):
+    import json
+    if json.load(open(path)).get("engine") == "env-player":
+        lw = long_writer("quick")
+        bad = [b for _, bs in lw for b in bs]
+        for b in bad:
+            print("VIOLATION-REPLAYED", b[0])
+        return 1 if bad else 0
     sc = {s["name"]: s for s, _ in scenarios("thorough")}
     return e2prop.replay(PID, sc, oracle, path)
